@@ -260,7 +260,11 @@ func ElemLoopOf(info *types.Info, s ast.Stmt) (*ElemLoop, bool) {
 			continue
 		}
 		o := info.ObjectOf(id)
-		if o == nil || count[o] != 1 || !l.IsElem(d.Rhs[0]) {
+		rhs := ast.Unparen(d.Rhs[0])
+		if u, isU := rhs.(*ast.UnaryExpr); isU && u.Op == token.AND {
+			rhs = u.X // `x := &B[i]`: a pointer to the element names the element (x.f is B[i].f)
+		}
+		if o == nil || count[o] != 1 || !l.IsElem(rhs) {
 			continue
 		}
 		if l.alias == nil {
